@@ -64,3 +64,33 @@ Proof.
   eexists. eapply (form_decision_sound _ xs ds xrs _ _ res); [| exact Hx | exact Hrt | exact Eres | exact Dres].
   unfold ds, cols. apply (row_enclosed l eq G).
 Qed.
+
+(* the same for the covariance-gradient table (one row per covariance input and component) *)
+Theorem implicit_ok_sound_cov (c : icase) (i : nat) (xs : list (dy * dy)) (xrs : list R) :
+  ic_nv c = ic_nu c -> implicit_ok c = true -> (0 <= dR (fst (dexact (ic_rt c))))%R ->
+  (i < length (ic_eqs c))%nat ->
+  In xs (dcov_table (ic_uobs c) (ic_dobs c)) -> Forall2 enclx xs xrs ->
+  let l := ic_uvals c ++ ic_dvals c in
+  let eq := nth i (ic_eqs c) (EC 0%Q) in
+  let cols := seq 0 (ic_nu c + length (ic_dvals c)) in
+  let ds := map (dval l eq) cols in
+  (forall j, In j cols -> Xderive_pt (fun t => evalX (updX (qenvR l) j t) eq) (Xreal (qenvR l j)) (Xreal (dval l eq j)))
+  /\ exists scale, Rabs (rsum ds xrs) <= dR (fst (dexact (ic_rt c))) * (rasum ds xrs + dR scale).
+Proof.
+  intros Hv Hok Hrt Hi Hin Hx l eq cols ds.
+  unfold implicit_ok in Hok. rewrite Hv, Nat.sub_diag, Nat.eqb_refl in Hok. cbn [seq eliminate] in Hok.
+  apply andb_true_iff in Hok. destruct Hok as [Hok Hrows]. apply andb_true_iff in Hok. destruct Hok as [_ Hg].
+  rewrite forallb_forall in Hg. rewrite forallb_forall in Hrows.
+  assert (Ein : In eq (ic_eqs c)) by (apply nth_In; exact Hi).
+  assert (G : guardsI (qenvI l) eq = true) by (apply Hg; exact Ein).
+  split; [intros j _; apply (coefficient_enclosed l eq j G)|].
+  specialize (Hrows i). rewrite in_seq in Hrows. specialize (Hrows ltac:(lia)). cbv zeta in Hrows.
+  apply andb_true_iff in Hrows. destruct Hrows as [_ Hf].
+  unfold jacobian in Hf. rewrite (nth_indep _ [] (map (fun j => evalI (ic_env c) (Dfold (EC 0%Q) j)) (seq 0 (ic_nu c + length (ic_dvals c))))) in Hf by (rewrite map_length; exact Hi).
+  rewrite (map_nth (fun eq0 => map (fun j => evalI (ic_env c) (Dfold eq0 j)) (seq 0 (ic_nu c + length (ic_dvals c)))) (ic_eqs c) (EC 0%Q) i) in Hf.
+  fold eq in Hf. rewrite firstn_skipn in Hf.
+  unfold dtable_form_ok in Hf.
+  destruct (dforms_ok_In _ _ _ _ Hf (in_map (fun xs0 => dform _ xs0 dzero dzero dzero) _ xs Hin)) as [res [Eres Dres]].
+  eexists. eapply (form_decision_sound _ xs ds xrs _ _ res); [| exact Hx | exact Hrt | exact Eres | exact Dres].
+  unfold ds, cols. apply (row_enclosed l eq G).
+Qed.
